@@ -603,6 +603,8 @@ def _clamp_form(prog, f, e, allow_calls=True):
     fn = dotted(e.func)
     if fn is None and isinstance(e.func, ast.IfExp) and dotted(e.func.body) in ("np.clip", "utils.clip") and dotted(e.func.orelse) in ("np.clip", "utils.clip"):
         fn = "utils.clip"       # (np.clip if object-array else utils.clip)(x, lo, hi): both take (x, lo, hi) positionally
+    if allow_calls and fn in ("clip", "int_clip") and ("utils." + fn) in prog.funcs:
+        fn = "utils." + fn          # a call written inside utils (reached by inlining a utils helper): the module's own clip
     if allow_calls and fn in ("np.clip", "utils.clip", "utils.int_clip"):
         names = {"np.clip": ("a", "a_min", "a_max"), "utils.clip": ("x", "val_min", "val_max"), "utils.int_clip": ("x", "val_min", "val_max")}[fn]
         args = list(e.args) + [None] * 3
